@@ -285,7 +285,8 @@ variable {L : List Nat} {M : Nat}
 
 attribute [local irreducible] readVecAt readScalarAt readMatAt rGLWE rGGLWE rGLWESwitchingKey rGLWEAutomorphismKey
   rGLWEPublicKey rGGLWEToGGSWKey rGLWECompressed rGGLWECompressed rGLWESwitchingKeyCompressed
-  rGLWEAutomorphismKeyCompressed rGGLWEToGGSWKeyCompressed rBlindRotationKey rBlindRotationKeyCompressed in
+  rGLWEAutomorphismKeyCompressed rGGLWEToGGSWKeyCompressed rBlindRotationKey rBlindRotationKeyCompressed
+  rCircuitBootstrappingKey rBDDKey in
 /-- **post-state invariant, every modelled type, every byte string, either outcome**: if the receiver's
 leaves were consistent with their buffers before `read_from`, they are afterwards (ok, err alike), no
 buffer changes length. -/
@@ -296,7 +297,8 @@ theorem reader_post_inv (ty : String) (r : Rd St Unit) (h : readerOf ty = some r
     | exact pres_rGLWE _ | exact pres_rGGLWE _ | exact pres_rGLWESwitchingKey _ | exact pres_rGLWEAutomorphismKey _
     | exact pres_rGLWEPublicKey _ | exact pres_rGGLWEToGGSWKey _ | exact pres_rGLWECompressed _
     | exact pres_rGGLWECompressed _ | exact pres_rGLWESwitchingKeyCompressed _ | exact pres_rGLWEAutomorphismKeyCompressed _
-    | exact pres_rGGLWEToGGSWKeyCompressed _ | exact pres_rBlindRotationKey _ | exact pres_rBlindRotationKeyCompressed _)
+    | exact pres_rGGLWEToGGSWKeyCompressed _ | exact pres_rBlindRotationKey _ | exact pres_rBlindRotationKeyCompressed _
+    | exact pres_rCircuitBootstrappingKey _ | exact pres_rBDDKey _)
 example : Keep [64] (2 ^ 40) ⟨[12], [], [.vec ⟨4, 2, 1, 1, List.replicate 64 0⟩], 2 ^ 40⟩ ∧ (readerOf "glwe").isSome = true := by
   refine ⟨⟨by decide, by decide, rfl⟩, by decide⟩
 
@@ -304,7 +306,8 @@ example : Keep [64] (2 ^ 40) ⟨[12], [], [.vec ⟨4, 2, 1, 1, List.replicate 64
 
 attribute [local irreducible] readVecAt readScalarAt readMatAt rGLWE rGGLWE rGLWESwitchingKey rGLWEAutomorphismKey
   rGLWEPublicKey rGGLWEToGGSWKey rGLWECompressed rGGLWECompressed rGLWESwitchingKeyCompressed
-  rGLWEAutomorphismKeyCompressed rGGLWEToGGSWKeyCompressed rBlindRotationKey rBlindRotationKeyCompressed in
+  rGLWEAutomorphismKeyCompressed rGGLWEToGGSWKeyCompressed rBlindRotationKey rBlindRotationKeyCompressed
+  rCircuitBootstrappingKey rBDDKey in
 /-- **totality, every modelled type**: from a consistent receiver, on every byte string, `read_from`
 returns `ok` or `err` — provided one allocation of 2^37 bytes (2^32 seeds of 32 bytes) is granted.
 FULL STATEMENT (false of the code, `reader_total_counterexample`): the same without `hM`. -/
@@ -316,7 +319,8 @@ theorem reader_total_partial (hM : 2 ^ 37 ≤ M) (ty : String) (r : Rd St Unit) 
     | exact np_rGLWE _ | exact np_rGGLWE _ | exact np_rGLWESwitchingKey _ | exact np_rGLWEAutomorphismKey _
     | exact np_rGLWEPublicKey _ | exact np_rGGLWEToGGSWKey _ | exact np_rGLWECompressed _
     | exact np_rGGLWECompressed hM _ | exact np_rGLWESwitchingKeyCompressed hM _ | exact np_rGLWEAutomorphismKeyCompressed hM _
-    | exact np_rGGLWEToGGSWKeyCompressed hM _ | exact np_rBlindRotationKey _ | exact np_rBlindRotationKeyCompressed hM _)
+    | exact np_rGGLWEToGGSWKeyCompressed hM _ | exact np_rBlindRotationKey _ | exact np_rBlindRotationKeyCompressed hM _
+    | exact np_rCircuitBootstrappingKey _ | exact np_rBDDKey _)
 example : (2 : Nat) ^ 37 ≤ 2 ^ 40 ∧ (readerOf "gglwe_compressed").isSome = true := by decide
 end
 
@@ -358,7 +362,8 @@ def singleLeaf : List String :=
 
 attribute [local irreducible] readVecAt readScalarAt readMatAt rGLWE rGGLWE rGLWESwitchingKey rGLWEAutomorphismKey
   rGLWEPublicKey rGGLWEToGGSWKey rGLWECompressed rGGLWECompressed rGLWESwitchingKeyCompressed
-  rGLWEAutomorphismKeyCompressed rGGLWEToGGSWKeyCompressed rBlindRotationKey rBlindRotationKeyCompressed in
+  rGLWEAutomorphismKeyCompressed rGGLWEToGGSWKeyCompressed rBlindRotationKey rBlindRotationKeyCompressed
+  rCircuitBootstrappingKey rBDDKey in
 /-- what does hold on error for the 24 single-layout types: the HAL layout — its dimension fields **and**
 its buffer — is exactly as before (only wrapper fields and seeds may have been overwritten). -/
 theorem wrapper_err_unchanged_partial (ty : String) (hty : ty ∈ singleLeaf) (r : Rd St Unit) (h : readerOf ty = some r) :
